@@ -139,7 +139,7 @@ def mismatch(what, expected, got, ctx):
     global mismatch_count
     mismatch_count += 1
     if len(mismatches) < 60:
-        mismatches.append({'impl': impl, 'what': what, 'expected': expected,
+        mismatches.append({'impl': impl, 'case_idx': childlib.CASE[0], 'what': what, 'expected': expected,
                            'got': got, 'ctx': ctx})
 
 
@@ -193,7 +193,7 @@ def guard_pair(c):
 def run_pairs():
     real = build()
     check_keys(real)
-    for c in job['cases']:
+    for childlib.CASE[0], c in enumerate(job['cases']):
         x, y = real[c['i'] - 1], real[c['j'] - 1]
         ctx = {'x': describe(c['i']), 'y': describe(c['j'])}
         guard_pair(c)
